@@ -70,7 +70,7 @@ def pair_obs(eng, A, B, only=None, exclude=()):
     return obs
 
 
-def cat_cat(eng, nr=2, nc=3, rows_date=False, ins=True, values=True, medians=False, strict=False):
+def cat_cat(eng, nr=2, nc=3, rows_date=False, ins=True, values=True, medians=False, strict=False, multi_diff=False):
     if medians:
         # the medians fork on the value order and on every cumulative threshold: own small scenario, concrete values
         rv, cv = [3, 1, 2][:nr], [2, 5, 1][:nc]
@@ -79,6 +79,10 @@ def cat_cat(eng, nr=2, nc=3, rows_date=False, ins=True, values=True, medians=Fal
         cv = [eng.real("cv%d" % k) for k in range(nc)] if values else None
     rins = [S("r12", [1, 2], anchor="top"), D("rd", [2], [1])] if ins else []
     cins = [S("c13", [1, 3], anchor=2), D("cd", [1], [2, 3])] if ins else []
+    if multi_diff:
+        # differences with several terms on a side: blanked in every proportion on a categorical-date dimension
+        rins = [D("r13-2", [1, 3], [2]), D("r3-12", [3], [1, 2], anchor="top")]
+        cins = [S("c12", [1, 2])]
     rk = "catdate" if rows_date else "cat"
     rows = (rk, "a", nr, {"missing_at": (1,), "insertions": rins, "numeric_values": {k + 1: v for k, v in enumerate(rv)} if values else None})
     cols = ("cat", "b", nc, {"missing_at": (0,), "insertions": cins, "numeric_values": {k + 1: v for k, v in enumerate(cv)} if values else None})
@@ -111,6 +115,7 @@ def specs(tier):
     add("cat x cat insertions, zero counts allowed", "cat_cat", dict(nr=2, nc=2, values=False))
     add("cat x cat medians", "cat_cat", dict(nr=2, nc=2, ins=False, medians=True), max_paths=2000)
     add("catdate x cat", "cat_cat", dict(rows_date=True, values=False))
+    add("catdate x cat, multi-term differences on the date dimension", "cat_cat", dict(rows_date=True, values=False, nr=3, nc=2, multi_diff=True, strict=True))
     add("cat x mr", "with_mr", dict(rows=("cat", "a", 2, {"missing_at": (1,)}), cols=("mr", "b", 2, {})))
     add("mr x mr", "with_mr", dict(rows=("mr", "a", 2, {}), cols=("mr", "b", 2, {})))
     if tier == "thorough":
